@@ -71,6 +71,7 @@ export VERIF_TIER="$TIER"
 fuzz_targets_for() {
   case "$1" in
     C02|C14) echo "fz_session";;
+    C04) echo "fz_sender";;
     C05) echo "fz_receiver";;
     C09|C12) echo "fz_deser";;
     C13) echo "fz_deser fz_open fz_receiver";;
